@@ -47,13 +47,14 @@ def sh(cmd, cwd=None, timeout=1800, env=None, input_=None):
 
 
 class Lock:
-    def __init__(self, name):
+    def __init__(self, name, shared=False):
         os.makedirs(CACHE, exist_ok=True)
         self.path = os.path.join(CACHE, name + ".lock")
+        self.shared = shared
 
     def __enter__(self):
-        self.f = open(self.path, "w")
-        fcntl.flock(self.f, fcntl.LOCK_EX)
+        self.f = open(self.path, "a")
+        fcntl.flock(self.f, fcntl.LOCK_SH if self.shared else fcntl.LOCK_EX)
 
     def __exit__(self, *a):
         fcntl.flock(self.f, fcntl.LOCK_UN)
@@ -157,8 +158,9 @@ class Ctx:
     def coq_build(self, props_file, timeout=1500, jobs=16):
         """Build the .vo closure of Props/<file>.v; parse Print Assumptions output."""
         target = f"Props/{props_file}.vo"
-        with Lock("coq"):
+        with Lock("coq-proj"):
             sh(["sh", os.path.join(COQ, "mkproject.sh")], cwd=COQ, timeout=120)
+        with Lock("coq", shared=True), Lock("coq-" + props_file):
             vo = os.path.join(COQ, target)
             if os.path.exists(vo):
                 os.remove(vo)
@@ -211,7 +213,7 @@ class Ctx:
 
     def coqchk(self, props_file, timeout=2400):
         cmd = f"coqchk -o -silent -Q Base VBase -Q Gen VGen -Q Model VModel -Q Proofs VProofs -Q Props VProps VProps.{props_file}"
-        with Lock("coq"):
+        with Lock("coq", shared=True):
             rc, out, dt = sh(cmd, cwd=COQ, timeout=timeout)
         self.checker_cmds.append("cd coq && " + cmd)
         axs = []
@@ -227,7 +229,7 @@ class Ctx:
     def build_driver(self, pid_l, timeout=600):
         """Extract coq/Extract/<ID>.v into ocaml/gen/<id>/ and build <id>_driver."""
         gen = os.path.join(VERIF, "ocaml", "gen", pid_l)
-        with Lock("coq"):
+        with Lock("coq", shared=True), Lock("extract-" + pid_l):
             os.makedirs(gen, exist_ok=True)
             for f in os.listdir(gen):
                 if f.endswith((".ml", ".mli", ".cmx", ".cmi", ".o", ".cmo")):
